@@ -277,29 +277,30 @@ namespace I18nVerif.FormatCache
 
 variable {κ ι : Type} [DecidableEq κ]
 
-/-- **Memoisation, independent of history**: from the empty cache — or from any state reached from it — every
-request in every sequence is served `make key` for the key it asks for, whatever was requested before, in whatever
-order; and the cache stays a duplicate-free map from keys to `make key` that contains every key requested so far. -/
-theorem C18_cache_memo (make : κ → ι) (ks : List κ) :
+/-- **Memoisation, independent of history**: from the empty cache every request in every sequence gets the outcome
+`make key` for the key it asks for — the formatter ICU4X builds for that (kind, locale, options), or the panic when
+ICU4X refuses them — whatever was requested before, in whatever order, whether or not earlier requests panicked;
+and the cache stays a duplicate-free map from keys to `make key` that contains every successfully requested key. -/
+theorem C18_cache_memo (make : κ → Option ι) (ks : List κ) :
     (run make [] ks).2 = ks.map make ∧
-    (∀ e ∈ (run make [] ks).1, e.2 = make e.1) ∧
+    (∀ e ∈ (run make [] ks).1, make e.1 = some e.2) ∧
     ((run make [] ks).1.map (·.1)).Nodup ∧
-    (∀ k ∈ ks, k ∈ (run make [] ks).1.map (·.1)) := by
+    (∀ k ∈ ks, (make k).isSome → k ∈ (run make [] ks).1.map (·.1)) := by
   obtain ⟨h1, h2, h3⟩ := run_spec make ks [] (inv_nil make)
-  exact ⟨h1, h2.1, h2.2, fun k hk => h3 k (Or.inr hk)⟩
+  exact ⟨h1, h2.1, h2.2, fun k hk hs => h3 k (Or.inr ⟨hk, hs⟩)⟩
 
 /-- the same from any state satisfying the invariant (in particular any state reached by earlier requests) -/
-theorem C18_cache_memo_from (make : κ → ι) (st : State κ ι) (h : Inv make st) (ks : List κ) :
+theorem C18_cache_memo_from (make : κ → Option ι) (st : State κ ι) (h : Inv make st) (ks : List κ) :
     (run make st ks).2 = ks.map make ∧ Inv make (run make st ks).1 :=
   ⟨(run_spec make ks st h).1, (run_spec make ks st h).2.1⟩
 
 /-- one request, any reachable state: the answer does not depend on the state -/
-theorem C18_cache_step (make : κ → ι) (pre : List κ) (k : κ) :
+theorem C18_cache_step (make : κ → Option ι) (pre : List κ) (k : κ) :
     (step make (run make [] pre).1 k).2 = make k :=
   (step_spec make _ k (run_spec make pre [] (inv_nil make)).2.1).1
 
-/-- **Order independence**: two orders of the same multiset of requests give the same output for each request -/
-theorem C18_cache_commutes (make : κ → ι) (ks ks' : List κ) (h : ks.Perm ks') :
+/-- **Order independence**: two orders of the same multiset of requests give the same outcome for each request -/
+theorem C18_cache_commutes (make : κ → Option ι) (ks ks' : List κ) (h : ks.Perm ks') :
     (ks.zip (run make [] ks).2).Perm (ks'.zip (run make [] ks').2) := by
   rw [(C18_cache_memo make ks).1, (C18_cache_memo make ks').1]
   have e : ∀ l : List κ, l.zip (l.map make) = l.map (fun k => (k, make k)) := by
@@ -311,8 +312,20 @@ theorem C18_cache_commutes (make : κ → ι) (ks ks' : List κ) (h : ks.Perm ks
 
 /-- **Threads**: a schedule is a sequence of `(thread, key)` steps (each `get_*_formatter` call is atomic under the
 `RwLock`); whatever the schedule, every call of every thread gets `make key` -/
-theorem C18_cache_threads (make : κ → ι) (sched : List (Nat × κ)) :
+theorem C18_cache_threads (make : κ → Option ι) (sched : List (Nat × κ)) :
     (run make [] (sched.map (·.2))).2 = sched.map (fun e => make e.2) := by
   rw [(C18_cache_memo make _).1, List.map_map]; rfl
+
+/-- the hypotheses are satisfiable, and the statement is not vacuous: key 0 is refused by ICU4X, keys 1 and 2 are not -/
+example : (run (fun k : Nat => if k = 0 then none else some (k * 10)) [] [1, 0, 2, 1, 0]).2 =
+    [some 10, none, some 20, some 10, none] := by decide
+
+/-- **Witness of the repaired defect** (lock poisoning): with `mutex.write().unwrap()` a request ICU4X refuses made every
+later request panic — the outcome of request `1` depended on whether `0` had been requested before it. -/
+example : runPoisoning (fun k : Nat => if k = 0 then none else some (k * 10)) ([], false) [1, 0, 1] =
+    [some 10, none, none] := by decide
+example : ¬ (∀ ks : List Nat, runPoisoning (fun k : Nat => if k = 0 then none else some (k * 10)) ([], false) ks =
+    ks.map (fun k : Nat => if k = 0 then none else some (k * 10))) := by
+  intro h; exact absurd (h [0, 1]) (by decide)
 
 end I18nVerif.FormatCache
